@@ -93,7 +93,11 @@ func genConcRootsOf(r *Rng, emit func(Case), n int, only string, maxg int) {
 			}
 			t.s(ctor)
 			t.i(r.Range(2, 99))
-			t.i(1)
+			if only == "FromBigRat" {
+				t.i(r.Pick([]int{3, 7, 13, 17, 19, 23, 29, 97, 101, 997}))
+			} else {
+				t.i(1)
+			}
 			if only == "CubeRootBigInt" {
 				t.i(r.Pick([]int{110, 150}))
 			} else {
@@ -382,6 +386,12 @@ func genC13(tier string, r *Rng, emit func(Case)) {
 		}
 		emitRoot(emit, r, fam, num, den, 70, thorough)
 	}
+	// several rationals computed at the same time from different goroutines (Numbers share no mutable state)
+	nconc := 40
+	if thorough {
+		nconc = 400
+	}
+	genConcRootsOf(r, emit, nconc, "FromBigRat", 8)
 	genC13Lists(tier, r, emit)
 	// the Number keeps the expansion of the value it was given, whatever the caller does with its big.Rat afterwards
 	na := 40
@@ -500,5 +510,5 @@ func init() {
 	register("C01", genRoots(sqrtCtors, 2), ops)
 	register("C02", genRoots(cubeCtors, 3), ops)
 	register("C03", genC03, ops)
-	register("C13", genC13, map[string]runner{"FromBigRat": runRoot, "Hist": runHist, "AliasCtor": runAliasCtor})
+	register("C13", genC13, map[string]runner{"FromBigRat": runRoot, "Hist": runHist, "AliasCtor": runAliasCtor, "ConcRoots": runConcRoots})
 }
